@@ -558,6 +558,12 @@ def r9_sources(facts, rep, rule="C16-R9"):
         want = [(Sym("s0.id"), Const(0)), (Sym("s1.id"), Const(1))]
         v = o.value.field(0)
         vec_ok = isinstance(v, Agg) and v.field(i_vec[0]) == two
+        if not ins and isinstance(v, Agg):
+            # the map collected from an iterator over the list (`iter().enumerate().map(..).collect()`): its pairs in order
+            mv = v.field(i_map[0])
+            mv = it2.read_ref(o.store, mv) if isinstance(mv, Ref) else mv
+            if isinstance(mv, Seq) and all(isinstance(x, Agg) and x.kind == "tuple" and len(x.fields) == 2 for x in mv.items):
+                ins = [(x.field(0), x.field(1)) for x in mv.items]
         if ins == want and vec_ok:
             good += 1
         else:
